@@ -51,7 +51,7 @@ def fresh_dir(path):
 
 
 def tlc_cmd(module, cfg, workers, metadir, xmx="4g", extra=()):
-    return ["java", "-XX:+UseParallelGC", "-Xmx" + xmx, "-cp", TLC_CP, "tlc2.TLC",
+    return ["java", "-XX:+UseParallelGC", "-Xss32m", "-Xmx" + xmx, "-cp", TLC_CP, "tlc2.TLC",
             "-workers", str(workers), "-metadir", metadir, "-noGenerateSpecTE",
             "-config", cfg] + list(extra) + [module]
 
